@@ -123,6 +123,13 @@ def gen_ops(rng, sess, usable, tier):
             ops.append({"op": "newcube", "cube": cube})
         elif r < 0.84 and cube not in "CD":
             ops.append({"op": "inferred", "cube": cube, "agg": rng.choice(good)})
+        elif r < 0.86 and sess["cube"] == "ccube":
+            # observe an index, let the caller swap two of its rows, observe again
+            which = rng.choice("AB")
+            k = rng.randrange(len(sess["dims" + which]))
+            ops.append({"op": "index", "which": which, "dim": k, "method": "observers"})
+            ops.append({"op": "caller_swap", "which": which, "dim": k, "col": rng.randrange(4), "pick": rng.randrange(16)})
+            ops.append({"op": "index", "which": which, "dim": k, "method": "observers"})
         elif r < 0.88 and sess["cube"] == "ccube":
             # the CALLER re-encodes one of its dimension indexes in place (same dense content, other common)
             which = rng.choice("AB")
@@ -448,6 +455,41 @@ class PuritySession:
         self.snap = self._snapshot()
         return "caller:shift_common"
 
+    def do_caller_swap(self, op):
+        """The caller edits one of its dimension indexes: one listed row becomes common and one common row gets that
+        value (same keys, same counts, other content).  Later results must be those of the index as it is now."""
+        c = op["which"]
+        if self.kind != "ccube" or c not in self.dims or op["dim"] >= len(self.dims[c]):
+            return None
+        spec = self.s["dims" + c][op["dim"]]
+        if len(spec["shape"]) > 2:
+            return None
+        idx = self.dims[c][op["dim"]]
+        a = numpy.array(spec["values"], dtype=numpy.int64).reshape(spec["shape"])
+        col = () if a.ndim == 1 else (op["col"] % a.shape[1],)
+        column = a[(slice(None),) + col]
+        listed = [r for r in range(len(column)) if column[r] != idx.common]
+        common = [r for r in range(len(column)) if column[r] == idx.common]
+        if not listed or not common:
+            return None
+        r1, r2 = listed[op["pick"] % len(listed)], common[op["pick"] % len(common)]
+        v = int(column[r1])
+        try:
+            idx.update({(int(idx.common),) + col: numpy.array([r1], dtype=U32), (v,) + col: numpy.array([r2], dtype=U32)})
+        except Exception:
+            return None
+        a[(r1,) + col] = idx.common
+        a[(r2,) + col] = v
+        self.s = dict(self.s)
+        self.s["dims" + c] = [dict(x) for x in self.s["dims" + c]]
+        self.s["dims" + c][op["dim"]]["values"] = a.ravel().tolist()
+        self.s["dims" + c][op["dim"]]["common"] = idx.common
+        self.w[c] = workload_of(self.s, c)
+        for key in [k for k in self.refs if k[0] == c]:
+            del self.refs[key]
+        self.snap = self._snapshot()
+        return "caller:swap"
+
     def do_caller_rewrite(self, op):
         """The caller re-uses one array buffer: new values written in place, then NEW aggregate objects built from
         the same array object.  Their results must be those of the values as they are now."""
@@ -534,11 +576,20 @@ class PuritySession:
                     if model.snapshot(prec) != ps:
                         raise Violation(PROP, "argument-mutated", where, "collapsed changed its precedence list")
                 elif m == "observers" and nd <= 2:
-                    idx.to_dict(force=True)
+                    forced = idx.to_dict(force=True)
                     list(idx.items(force=True))
                     for key in list(dict.keys(idx))[:3]:
                         idx.get(key, None, True)
                     idx.get((idx.common,) + ((0,) if nd == 2 else ()), None, True)
+                    # a query answers for the index as it is NOW, whatever was asked before
+                    dense = model.decode(idx)
+                    cols = [()] if nd == 1 else [(j,) for j in range(idx.shape[1])]
+                    want = {k: v.tolist() for k, v in dict.items(idx)}
+                    for col in cols:
+                        want[(idx.common,) + col] = numpy.nonzero(dense[(slice(None),) + col] == idx.common)[0].tolist()
+                    if {k: v for k, v in forced.items() if v} != {k: v for k, v in want.items() if v}:
+                        raise Violation(PROP, "result-depends-on-history", where,
+                                        "to_dict(force=True) does not describe the index as it is now: %r vs %r" % (forced, want))
                 elif m == "from_array" and nd <= 2:
                     import catii
 
